@@ -193,6 +193,47 @@ theorem C05_cell_data {α} (cs : List (Nat × List Nat)) (vals : List α) (hl : 
     splitCellData vals (vtuContent cs) = some (cellDataContent cs vals) :=
   splitCellData_content cs vals hl
 
+/-- **C05 (VTP cell layout).**  For the four cell sections of a `.vtp` (Verts, Lines, Polys, Strips;
+    any cells, rows of any length, empty sections allowed): decoding the per-section
+    `connectivity / offsets` arrays and the `NumberOf…` attributes yields, per NON-EMPTY section in
+    file order, exactly its cells in file order and the consecutive index range of its cells. -/
+theorem C05_vtp_layout (secs : List (Nat × List (List Nat))) :
+    vtpLayout (vtpArrays secs) = vtpContent secs :=
+  vtpLayout_from secs 0
+
+/-- … and every cell-data array is split along the same ranges: section `k` gets the values of its
+    own cells, in file order (mirror of `C05_cell_data`) -/
+theorem C05_vtp_cell_data {α} (secs : List (Nat × List (List Nat))) (vals : List α)
+    (hl : vals.length = (secs.map (·.2.length)).sum) :
+    splitCellData vals (vtpLayout (vtpArrays secs)) = some (vtpCellDataContent secs vals) := by
+  rw [C05_vtp_layout]
+  exact splitCellData_vtpContentFrom secs [] vals hl
+
+/-- the three value readers of `VTKXMLReader` as the source text has them now: the binary ones hand numpy
+    a dtype in the file's byte order (`readArray` models exactly that), the ascii one a native dtype -/
+theorem C05_dtype_byte_order :
+    Gen.vtkDtypeByteOrder = [("ascii", false), ("binary", true), ("appended", true)] := by decide
+
+/-- **C05 (ascii ignores `byte_order`).**  The items read from an ascii array do not depend on the
+    header's `byte_order` attribute: for both byte orders they are the native items of the tokens,
+    hence a file that declares `BigEndian` reads like one that declares `LittleEndian`, and the
+    tokens of logical items read back to these items.  (`asciiItems` takes the dtype's dependence on
+    the byte order from the source text; with a byte-order dependent dtype the statement is false —
+    negation witness in Witness/C05.lean.) -/
+theorem C05_ascii_byte_order (bo : ByteOrder) (signed : Bool) (sz : Nat) (hsz : 0 < sz) (toks : List Int)
+    (items : List Nat) (hb : IsBytes items) (hd : items.length % sz = 0) :
+    asciiItems bo sz toks = asciiRead sz toks ∧
+    asciiItems .be sz toks = asciiItems .le sz toks ∧
+    asciiItems bo sz (asciiTokens signed sz items) = items := by
+  have h : ∀ b t, asciiItems b sz t = asciiRead sz t := by
+    intro b t
+    -- the flag of the ascii reader in the source-derived table (re-evaluated against the current source)
+    have hflag : (Gen.vtkDtypeByteOrder.lookup "ascii").getD true = false := by decide
+    unfold asciiItems asciiItemsWith
+    rw [hflag]
+    rfl
+  exact ⟨h bo toks, by rw [h, h], by rw [h]; exact C05_ascii signed sz hsz items hb hd⟩
+
 /-
   Raw-appended files are not well-formed XML; the reader then cuts the appendix out of the file content
   with byte searches (`Fc.fallbackAppendix`, model of `_find_appendix_positions` / `_determine_encoding`).
@@ -205,9 +246,8 @@ theorem C05_cell_data {α} (cs : List (Nat × List Nat)) (vals : List α) (hl : 
   because the code takes the FIRST occurrence in the whole file (negation witness in Witness/C05.lean,
   replayed on the implementation by the harness on every run).  Proved: the statement under the
   hypothesis that no earlier occurrence exists; the class predicate of the finding is its negation.
-  (The start position and the encoding detection — `content.find("_")`, `rfind("<AppendedData")` in the
-  last 100 bytes before the data plus the data itself — are modelled and compared with the code on every
-  generated raw file, but not covered by a theorem.)
+  Phase 2: the start position, the encoding detection and the file-level statement are now proved
+  (`C05_fallback_appendix` below); the hypothesis `AppendixOk` there is what remains of the finding.
 -/
 theorem C05_raw_appendix_end_partial (head appendix post : List Nat)
     (hno : ∀ j, j < (head ++ appendix).length →
@@ -219,5 +259,57 @@ theorem C05_raw_appendix_end_partial (head appendix post : List Nat)
     (by simp only [List.length_append]; omega) hno
     (by rw [List.append_assoc (head ++ appendix), List.drop_left' rfl]; exact startsWith_append _ _)
   simpa using this
+
+/-- **C05 (raw-appended fallback parser, file level).**  A file
+    `pre ++ "<AppendedData" ++ a1 ++ "encoding" ++ a2 ++ '"' ++ enc ++ '"' ++ a3 ++ ">" ++ ws ++ "_" ++ appendix
+       ++ "</AppendedData>" ++ post`
+    whose surroundings are well-formed as in a real header (`RawFile.HeadOk`, decidable: no earlier
+    occurrence of the two tags, no `<` `>` in the attribute text, `encoding` is the first keyword of that
+    name, no `"` before the opening quote or inside the name, only blanks between `>` and `_`, no
+    opening tag behind the closing tag, opening tag within the 100 bytes before the data) and whose
+    APPENDIX IS ARBITRARY except that it contains neither `<AppendedData` nor `</AppendedData>`
+    (`RawFile.AppendixOk`; its negation is the class of finding C05-RAWTAG, for which the statement
+    is false — negation witnesses `wBad`, `wBad2`):
+    `_find_appendix_positions` + `_determine_encoding` + the slicing of `VTKXMLReader.__init__`
+    return exactly the appendix bytes and the declared encoding name.
+    Covers the start position (`find("_")` behind the enclosed `<…>` range), the end position and
+    the encoding detection (`rfind` in `content[app_begin - 100:]`). -/
+theorem C05_fallback_appendix (f : RawFile) (hh : f.HeadOk) (ha : f.AppendixOk) :
+    fallbackAppendix f.content = some (f.appendix, f.enc) :=
+  fallbackAppendix_rawFile f hh ha
+
+/-- **C05 (fallback parser, concrete header).**  `encoding="raw"`: for every document prefix `pre`
+    (≥ 100 bytes, not containing the two tags) and every appendix not containing them, the bytes
+    between `_` and `</AppendedData>` are returned and `raw` is detected. -/
+theorem C05_fallback_appendix_raw (pre appendix : List Nat)
+    (hO : occ openTag pre = false) (hC : occ closeTag pre = false) (hlen : 100 ≤ pre.length)
+    (haO : occ openTag appendix = false) (haC : occ closeTag appendix = false) :
+    fallbackAppendix (pre ++ strBytes "<AppendedData encoding=\"raw\">\n_" ++ appendix
+      ++ strBytes "</AppendedData>\n</VTKFile>\n") = some (appendix, strBytes "raw") := by
+  have h := C05_fallback_appendix (stdRawFile pre (strBytes "raw") appendix)
+    (stdRawFile_headOk pre _ appendix hO hC hlen (by decide +kernel)) ⟨haO, haC⟩
+  have e1 : strBytes "<AppendedData encoding=\"raw\">\n_"
+      = openTag ++ ([32] ++ encodingKw ++ [61] ++ [34] ++ strBytes "raw" ++ [34] ++ []) ++ [62] ++ [10] ++ [95] := by
+    decide +kernel
+  have e2 : strBytes "</AppendedData>\n</VTKFile>\n" = closeTag ++ strBytes "\n</VTKFile>\n" := by decide +kernel
+  rw [e1, e2]
+  simpa [stdRawFile, RawFile.content, RawFile.mid, RawFile.attrs, List.append_assoc] using h
+
+/-- … and `base64` when that is what the header declares (a base64 appendix never contains `<`) -/
+theorem C05_fallback_appendix_base64 (pre appendix : List Nat)
+    (hO : occ openTag pre = false) (hC : occ closeTag pre = false) (hlen : 100 ≤ pre.length)
+    (ha : 60 ∉ appendix) :
+    fallbackAppendix (pre ++ strBytes "<AppendedData encoding=\"base64\">\n_" ++ appendix
+      ++ strBytes "</AppendedData>\n</VTKFile>\n") = some (appendix, strBytes "base64") := by
+  have h := C05_fallback_appendix (stdRawFile pre (strBytes "base64") appendix)
+    (stdRawFile_headOk pre _ appendix hO hC hlen (by decide +kernel))
+    ⟨by rw [openTag_cons]; exact occ_false_of_not_mem 60 _ _ ha,
+     by rw [closeTag_cons]; exact occ_false_of_not_mem 60 _ _ ha⟩
+  have e1 : strBytes "<AppendedData encoding=\"base64\">\n_"
+      = openTag ++ ([32] ++ encodingKw ++ [61] ++ [34] ++ strBytes "base64" ++ [34] ++ []) ++ [62] ++ [10] ++ [95] := by
+    decide +kernel
+  have e2 : strBytes "</AppendedData>\n</VTKFile>\n" = closeTag ++ strBytes "\n</VTKFile>\n" := by decide +kernel
+  rw [e1, e2]
+  simpa [stdRawFile, RawFile.content, RawFile.mid, RawFile.attrs, List.append_assoc] using h
 
 end Fc
